@@ -261,7 +261,10 @@ Proof. unfold from_commitment_p, known_F18. destruct (Nat.eqb (length sl) 33); c
 Lemma finalize_p_api items b : api_builder items = Taproot.Ok b -> forall s, finalize_p b <> Taproot.Panic s.
 Proof. unfold api_builder, finalize_p. intros R s. destruct (run_head_some triv triv items b R) as [->|(n & r & ->)]; [discriminate|].
   unfold Taproot.finalize. destruct (1 <? _)%nat; [discriminate|]. unfold from_node_info, new_key_spend, tap_tweak. cbn. discriminate. Qed.
-Lemma finalize_p_serde_refuted : finalize_p [None] = Taproot.Panic BuilderInvariant /\ known_F16 [None] = true. Proof. split; reflexivity. Qed.
+(* F16 repaired (fix c723f02): the serde-only state [None] is refused as IncompleteTree, and no state at all makes finalize panic *)
+Lemma finalize_p_serde_repaired : finalize_p [None] = Taproot.Fail IncompleteTree /\ forall b s, finalize_p b <> Taproot.Panic s.
+Proof. split; [reflexivity|]. intros b s. unfold finalize_p, Taproot.finalize. destruct (1 <? _)%nat; [discriminate|].
+  destruct b as [|[n|] r]; discriminate. Qed.
 
 (* ------------------------------------------------------------------------------------------------ blech32 decode *)
 Definition validc (c : byte) : bool := match from_char c with Some _ => true | None => false end.
